@@ -22,10 +22,14 @@ impl Adapter for CoalesceAd {
         "coalesce"
     }
     fn gen_cfg(&mut self, _rng: &mut Rng, _size: Size) -> Value {
-        json!({"x": 0})
+        json!({"x": 0, "ctor": _rng.below(2)})
     }
     fn build(&mut self, _cfg: &Value, sim: &mut Sim) {
-        let layer: CoalesceLayer<u32, Req, fn(&Req) -> u32> = CoalesceLayer::new(keyfn as fn(&Req) -> u32);
+        let layer: CoalesceLayer<u32, Req, fn(&Req) -> u32> = if _cfg["ctor"].as_u64().unwrap_or(0) == 1 {
+            CoalesceLayer::builder(keyfn as fn(&Req) -> u32).name("verif").build()
+        } else {
+            CoalesceLayer::new(keyfn as fn(&Req) -> u32)
+        };
         self.svc = Some(layer.layer(Inner::new(&sim.w)));
     }
     fn mk(&mut self, req: &Req) -> CallFut {
